@@ -25,7 +25,7 @@ func (r *Rng) Intn(n int) int {
 	return int(r.Next() % uint64(n))
 }
 func (r *Rng) Chance(num, den int) bool { return r.Intn(den) < num }
-func (r *Rng) Pick(xs ...int) int      { return xs[r.Intn(len(xs))] }
+func (r *Rng) Pick(xs ...int) int       { return xs[r.Intn(len(xs))] }
 func (r *Rng) U64n(n uint64) uint64 {
 	if n == 0 {
 		return 0
